@@ -625,6 +625,26 @@ def gen_tf(ctx, n):
   return out
 
 
+def gen_tf_large_dims(ctx):
+  """Tearfree Shampoo handles at most two blocked ("large": d >= block_size) axes per parameter and must
+  reject more explicitly at init.  Structured family around that boundary: 2, 3 or 4 axes at / above the
+  block size, equal to it or strictly larger, with unit and small axes in between; merge_dims = block_size
+  keeps the axes apart (added after a seeded change was missed: the rejection compared with > instead
+  of >=, so only dims exactly equal to the block size exposed it)."""
+  rng = ctx.rng.fork()
+  out = []
+  for b in (2, 3, 4):
+    shapes = [[b, b, b], [b, 2 * b, 2 * b], [2 * b, b, 2 * b], [b + 1, b, b], [b, b], [2 * b, b],
+              [2 * b, 2 * b, 2 * b], [b, 1, b, b], [b, b, b, b], [2 * b, 1, b], [b + 1, 2 * b, b - 1 or 1, b]]
+    for sh in shapes:
+      cfg = {"graft": {"grafting_type": rng.choice(["none", "sgd", "rmsprop"])},
+             "second_order": {"shampoo": {"block_size": b}, "merge_dims": b}, "momentum": {}}
+      if rng.below(3) == 0:
+        cfg["second_order"]["merge_dims"] = 2 * b
+      out.append(("tf", cfg, {"k": "dict", "keys": ["w"], "ch": [L(*sh)]}))
+  return out
+
+
 def gen_sharded_sizes(ctx, n_random):
   """Sharded runs in which the padded statistics size [N, S, S] is decided by WHICH parameters are
   preconditioned: a parameter excluded by skip_preconditioning_rank_lt / _dim_size_gt whose
@@ -707,6 +727,8 @@ def gen_cases(ctx):
     cases.append(dict(opt=opt, cfg=cfg, x64=False, tree=with_dtype(tr, cfg.get("param_dtype", "float32")),
                       why=opt))
   cases += gen_sharded_sizes(ctx, 20 if quick else 400)
+  for opt, cfg, tr in gen_tf_large_dims(ctx):
+    cases.append(dict(opt=opt, cfg=cfg, x64=False, tree=with_dtype(tr, "float32"), why="tf-large-dims"))
   for i, c in enumerate(cases):
     c["id"] = i
     c["T"] = 3
